@@ -97,6 +97,54 @@ Fixpoint run_gate (steps : list gate_step) (outer inner : string) (e : env) (k :
 Definition gate (outer inner : string) (e : env) (k : cred) : verdict :=
   run_gate gate_order outer inner e k (k_authd k).
 
+(* ---- the connection's authd flag ----
+   The value of client.authd after the message has gone through handleInputCommand. The source has
+   ONE statement that changes the field (Gen.AuthGate.authd_assignments, every other write is a
+   recogniser error of t38x): `client.authd = true` in the requirePass() != "" branch, after the
+   password comparison. Same walk over the statement order as run_gate; every return before that
+   statement leaves the flag as it was. *)
+Fixpoint run_gate_authd (steps : list gate_step) (outer inner : string) (e : env) (k : cred) (authd : bool) : bool :=
+  match steps with
+  | [] => authd
+  | st :: rest =>
+      match st with
+      | GEarlyReply => if in_strs outer early_reply_cmds then authd else run_gate_authd rest outer inner e k authd
+      | GLoading =>
+          if e_loading e && negb (in_strs inner loading_exempt) then authd
+          else run_gate_authd rest outer inner e k authd
+      | GHello => if String.eqb outer "hello" then authd else run_gate_authd rest outer inner e k authd
+      | GAuth =>
+          if (negb authd || String.eqb outer "auth") && negb (in_strs outer auth_exempt) then
+            if e_requirepass e then
+              match (if String.eqb outer "auth" then Some (k_auth_arg_ok k) else None), k_http_auth k with
+              | None, None => authd
+              | _, Some ok => if ok then run_gate_authd rest outer inner e k true else authd
+              | Some ok, None => if ok then true else authd
+              end
+            else if String.eqb inner "auth" then authd
+            else run_gate_authd rest outer inner e k authd
+          else run_gate_authd rest outer inner e k authd
+      | GTimeoutRewrite | GLockSwitch | GCommand | GWriteAOF => run_gate_authd rest outer inner e k authd
+      end
+  end.
+
+Definition gate_authd (outer inner : string) (e : env) (k : cred) : bool :=
+  run_gate_authd gate_order outer inner e k (k_authd k).
+
+(* a connection = a sequence of messages, each seen under the server configuration of its moment
+   (requirepass may be set or cleared between two messages by CONFIG SET on another connection) *)
+Record cmsg := mkCmsg {
+  cm_outer : string; cm_inner : string; cm_env : env; cm_http_auth : option bool; cm_auth_arg_ok : bool }.
+
+Definition cmsg_cred (authd : bool) (m : cmsg) : cred := mkCred authd (cm_http_auth m) (cm_auth_arg_ok m).
+
+(* authd after the whole history, starting from `authd` (false for a new connection: new(Client)) *)
+Fixpoint conn_authd (ms : list cmsg) (authd : bool) : bool :=
+  match ms with
+  | [] => authd
+  | m :: rest => conn_authd rest (gate_authd (cm_outer m) (cm_inner m) (cm_env m) (cmsg_cred authd m))
+  end.
+
 (* ---- script sub-commands (tile38.call from EVAL / EVALRO / EVALNA) ---- *)
 
 Inductive sverdict :=
